@@ -85,29 +85,36 @@ func newLexer(env *ExecEnv, r io.RuneScanner) *lexer {
 		done:   make(chan struct{}),
 		cancel: make(chan struct{}),
 	}
+	verifPoint(l, "L.new", 0)
 	go l.run()
 	return l
 }
 
 func (l *lexer) Lex(lval *yySymType) int {
+	verifPoint(l, "P.req", 0)
 	// request the next token
 	select {
 	case l.req <- struct{}{}:
 	case <-l.done:
 	}
+	verifPoint(l, "P.tok", 0)
 	switch tok := (<-l.token).(type) {
 	case token:
+		verifPoint(l, "P.recv", tok.typ)
 		lval.expr.s = tok.val
 		return tok.typ
 	case int:
+		verifPoint(l, "P.recv", tok)
 		lval.op = ops[tok]
 		return tok
 	}
+	verifPoint(l, "P.recv", 0)
 	return 0
 }
 
 func (l *lexer) run() {
 	defer func() {
+		verifPoint(l, "L.exit", 0)
 		close(l.token)
 		close(l.done)
 
@@ -117,6 +124,7 @@ func (l *lexer) run() {
 		}
 	}()
 
+	verifPoint(l, "L.start", 0)
 	l.wait()
 	for action := l.lexToken; action != nil; {
 		action = action()
@@ -126,15 +134,18 @@ func (l *lexer) run() {
 // wait blocks until the parser requests the next token, so that the
 // lexer never runs ahead of the parser.
 func (l *lexer) wait() {
+	verifPoint(l, "L.wait", 0)
 	select {
 	case <-l.req:
 		select {
 		case <-l.cancel:
 		default:
+			verifPoint(l, "L.go", 0)
 			return
 		}
 	case <-l.cancel:
 	}
+	verifPoint(l, "L.bail", 0)
 	// bailout
 	panic(bailout)
 }
@@ -378,9 +389,11 @@ func (l *lexer) emit(typ int) {
 	default:
 		tok = typ
 	}
+	verifPoint(l, "L.emit", typ)
 	select {
 	case l.token <- tok:
 	case <-l.cancel:
+		verifPoint(l, "L.bail", 0)
 		// bailout
 		panic(bailout)
 	}
@@ -388,6 +401,7 @@ func (l *lexer) emit(typ int) {
 }
 
 func (l *lexer) read() (rune, error) {
+	verifPoint(l, "L.read", 0)
 	r, _, err := l.r.ReadRune()
 	return r, err
 }
@@ -399,6 +413,7 @@ func (l *lexer) unread() {
 // set assigns value to the variable unless an error has already been
 // recorded.
 func (l *lexer) set(name, value string) {
+	verifPoint(l, "P.set", 0)
 	l.mu.Lock()
 	err := l.err
 	l.mu.Unlock()
@@ -408,6 +423,7 @@ func (l *lexer) set(name, value string) {
 }
 
 func (l *lexer) Error(s string) {
+	verifPoint(l, "E.error", 0)
 	l.mu.Lock()
 	defer l.mu.Unlock()
 
